@@ -43,3 +43,17 @@ Proof.
   destruct (sweep _ _) as [o|e|p]; cbn [bind] in H; try discriminate. inversion H; subst. apply isort_sorted.
 Qed.
 Print Assumptions C04_sorted_adjust.
+
+(* over histories: however a map was obtained -- raw constructor, builder, decoding, and then any sequence of rewrite, flatten,
+   adjust_mappings and in-place setters -- its tokens are ordered and every lookup follows the closest-preceding-token rule *)
+From SM Require Import Model.Glb Proofs.Histories.
+Theorem C04_histories : forall m line col, obtained m ->
+  Forall (fun t => is_u32 (t_dc t) = true) (sm_tokens m) -> is_u32 col = true ->
+  sorted tok_key (sm_tokens m) /\
+  match lookup_token (sm_tokens m) line col with
+  | Ok None => forall t, In t (sm_tokens m) -> plt (line, col) (tok_key t)
+  | Ok (Some (i, t, _)) => glb_spec tok_key (sm_tokens m) (line, col) (Some (i, t))
+  | _ => False
+  end.
+Proof. exact Histories.C04_histories. Qed.
+Print Assumptions C04_histories.
